@@ -1,4 +1,4 @@
-"""C16 (partial) - RFI cleaning masks exactly the flagged channels and nothing else.
+"""C16 - RFI cleaning masks exactly the flagged channels and nothing else.
 
 Decided:
   A. RFIMask.apply_mask / apply_method / apply_funcn (real bytecode, numpy's own broadcasting over object
@@ -10,8 +10,15 @@ Decided:
      requested mask value and the same (gulp, start, nsamps);
   C. the per-block masking itself (masked channels = mask value, all other samples bit-identical, every
      block) is the apply_channel_mask harness of C07, re-run here.
-NOT decided: the outlier definitions inside double_mad_mask / iqrm_mask (robust estimators, see C15) and
-the HDF5 round trip of RFIMask.to_file/from_file (h5py is FFI)."""
+  D. the outlier definitions: double_mad_mask = |doublemad z-score| > threshold on the statistic itself; iqrm_mask
+     = for every lag in -radius..-1,1..radius the lagged differences x[i]-x[clip(i+lag)] (numpy's real pad /
+     as_strided / fancy indexing on object arrays) z-scored with the IQR scale, flagged when any lag exceeds
+     the threshold; non-positive thresholds rejected; apply_method dispatches by name.  The z-scores themselves
+     are the estimate_zscore of C15 (fresh symbols here).
+  E. the mask-file round trip over a trusted HDF5 store contract (FakeH5: what is stored is read back, name
+     order): every array, the threshold and every Header field except stream_info come back.
+NOT decided: h5py itself (FFI; the store contract stands in for it), Header.stream_info (describes the reader's
+file set, not the observation; not stored), the default mask value."""
 from __future__ import annotations
 
 import json
@@ -229,11 +236,304 @@ def orchestration_work(P, item):
         P.violation("clean_rfi-orchestration", f"clean_rfi orchestration differs: {notes[:1]}", src, model=params)
 
 
+# ---------------------------------------------------------------- D: the outlier definitions (mad / iqrm)
+class ZArr(np.ndarray):
+    """object array of symbolic reals whose comparisons stay symbolic (numpy would force them to bool)"""
+
+    def __gt__(self, o):
+        out = np.empty(self.shape, dtype=object)
+        for i in np.ndindex(self.shape):
+            out[i] = wrap(self[i]) > o
+        return out
+
+
+def zarr(vals):
+    a = np.empty(len(vals), dtype=object)
+    for i, v in enumerate(vals):
+        a[i] = v
+    return a.view(ZArr)
+
+
+def outlier_work(P, item):
+    """double_mad_mask: |z| > threshold on the doublemad z-scores of the statistic; iqrm_mask: for every lag in
+    -radius..-1, 1..radius the lagged differences x[i] - x[clip(i+lag)] are z-scored with the IQR scale and a channel is
+    flagged when any lag exceeds the threshold; non-positive thresholds are rejected; apply_method dispatches by name."""
+    _, which, n, radius = item
+    from sigpyproc.core import rfi
+    calls = []
+
+    class ZR:
+        def __init__(self, data):
+            self.data = data
+
+    class StatsStub:
+        @staticmethod
+        def estimate_zscore(arr, loc_method="median", scale_method="mad", axis=0):
+            k = len(calls)
+            lane = list(np.asarray(arr, dtype=object).ravel())
+            z = [SReal(z3.Real(f"z{k}_{i}")) for i in range(len(lane))]
+            calls.append((lane, loc_method, scale_method, axis, z))
+            return ZR(zarr(z))
+
+    def run(ctx):
+        calls.clear()
+        x = zarr([SReal(z3.Real(f"x{i}")) for i in range(n)])
+        thr = SReal(z3.Real("thr"))
+        npm = NPm()
+        try:
+            if which == "mad":
+                m = rebind(rfi.double_mad_mask, np=npm, stats=StatsStub)(x, thr)
+            else:
+                m = rebind(rfi.iqrm_mask, np=npm, stats=StatsStub)(x, thr, radius)
+            return dict(mask=m, err=None, calls=list(calls), x=x, thr=thr)
+        except ValueError:
+            return dict(mask=None, err="ValueError", calls=list(calls), x=x, thr=thr)
+
+    def on_path(ctx, o):
+        Ctx.cur = ctx
+        P.reached += 1
+        label = f"{which}_mask[n={n}" + (f",radius={radius}]" if which == "iqrm" else "]")
+        thr = o["thr"].e
+        viol = []
+        if o["err"]:
+            viol.append(("a positive threshold is accepted", thr > 0))
+        else:
+            viol.append(("a non-positive threshold is rejected", thr <= 0))
+            lags = [0] if which == "mad" else [l for l in range(-radius, radius + 1) if l != 0]
+            if len(o["calls"]) != len(lags):
+                viol.append((f"one z-score pass per lag ({len(lags)})", z3.BoolVal(True)))
+            else:
+                flagged = [[] for _ in range(n)]
+                for lag, (lane, lm, sm, ax, z) in zip(lags, o["calls"]):
+                    if which == "mad":
+                        want = [o["x"][i] for i in range(n)]
+                        okm = (lm, sm, ax) == ("median", "doublemad", 0)
+                    else:
+                        want = [o["x"][i] - o["x"][min(max(i + lag, 0), n - 1)] for i in range(n)]
+                        okm = (lm, sm, ax) == ("median", "iqr", 0)
+                    viol.append((f"lag {lag}: location/scale method", z3.BoolVal(not okm)))
+                    if len(lane) != n:
+                        viol.append((f"lag {lag}: lane length", z3.BoolVal(True)))
+                        continue
+                    viol.append((f"lag {lag}: the z-scored lane is x[i] - x[clip(i+lag)]" if which == "iqrm" else "the z-scored vector is the statistic itself",
+                                 z3.Or([wrap(a).e != wrap(b).e for a, b in zip(lane, want)])))
+                    for i in range(n):
+                        flagged[i].append(z3.Or(z[i].e > thr, -z[i].e > thr))
+                mk = np.asarray(o["mask"], dtype=object)
+                if mk.shape != (n,):
+                    viol.append(("mask has one entry per channel", z3.BoolVal(True)))
+                else:
+                    for i in range(n):
+                        viol.append((f"mask[{i}] = some lag has |z| > threshold", e(mk[i]) != z3.Or(flagged[i])))
+        for nm, c in viol:
+            if ctx.check(c) == z3.unsat:
+                P.obligation(f"{label}/{nm}", "holds")
+                continue
+            mod = ctx.solver.model()
+            from fractions import Fraction
+
+            def fv(t):
+                v = mod.eval(t, model_completion=True)
+                return float(Fraction(v.numerator_as_long(), v.denominator_as_long()))
+            params = dict(kind="outlier", which=which, n=n, radius=radius, x=[fv(v.e) for v in o["x"]], thr=fv(thr),
+                          z=[[fv(zz.e) for zz in c_[4]] for c_ in o["calls"]])
+            src = ("import sys, json\nfrom symx.concrete import c16\n"
+                   f"sys.exit(c16.main(json.loads({json.dumps(json.dumps(params))})))\n")
+            P.violation(f"{which}_mask-{n}-{radius}-{nm[:40]}".replace(" ", "_").replace("[", "").replace("]", "").replace("=", "").replace("|", "").replace("/", "-").replace(":", ""), f"{label}: {nm}", src, model=params)
+            break
+        Ctx.cur = None
+    try:
+        explore(run, bound=3, on_path=on_path, stats=P.stats, deadline_s=300)
+    except Inconclusive as ex:
+        P.inconclusive_(f"{item}: {ex}")
+
+
+def dispatch_work(P, item):
+    """apply_method: 'mad' -> double_mad_mask, 'iqrm' -> iqrm_mask, anything else is rejected"""
+    from sigpyproc.core import rfi
+    ok = True
+    for method, want in (("mad", "DM"), ("iqrm", "IQ"), ("bogus", None), ("", None)):
+        seen = []
+
+        class M:
+            threshold, chan_var, chan_skew, chan_kurt = 3, "V", "S", "K"
+            chan_mask = np.zeros(2, dtype=bool)
+        fn = rebind(rfi.RFIMask.apply_method, double_mad_mask=lambda a, t: (seen.append("DM"), np.zeros(2, dtype=bool))[1],
+                    iqrm_mask=lambda a, t: (seen.append("IQ"), np.zeros(2, dtype=bool))[1])
+        try:
+            fn(M(), method)
+            ok = ok and want is not None and seen == [want] * 3
+        except ValueError:
+            ok = ok and want is None and not seen
+    P.stats.queries += 1
+    P.reached += 1
+    if ok:
+        P.obligation("apply_method: 'mad' uses double_mad_mask, 'iqrm' uses iqrm_mask, other names are rejected", "holds", symbolic=False)
+    else:
+        params = dict(kind="dispatch")
+        src = ("import sys, json\nfrom symx.concrete import c16\n"
+               f"sys.exit(c16.main(json.loads({json.dumps(json.dumps(params))})))\n")
+        P.violation("apply_method-dispatch", "apply_method dispatches to the wrong outlier definition", src, model=params)
+
+
+# ---------------------------------------------------------------- E: mask file round trip over an HDF5 store contract
+class FakeH5:
+    """h5py stand-in (trusted contract): attributes and datasets read back what was stored - python ints/floats/bools
+    come back as numpy scalars, strings as str, arrays element for element; iteration is in name order."""
+    stores = {}
+
+    class _Attrs:
+        def __init__(self, d):
+            self.d = d
+
+        def __setitem__(self, k, v):
+            if isinstance(v, bool):
+                v = np.bool_(v)
+            elif isinstance(v, int):
+                v = np.int64(v)
+            elif isinstance(v, float):
+                v = np.float64(v)
+            self.d[k] = v
+
+        def __getitem__(self, k):
+            return self.d[k]
+
+        def __contains__(self, k):
+            return k in self.d
+
+        def get(self, k, default=None):
+            return self.d.get(k, default)
+
+        def keys(self):
+            return sorted(self.d)
+
+        def items(self):
+            return [(k, self.d[k]) for k in sorted(self.d)]
+
+        def __iter__(self):
+            return iter(sorted(self.d))
+
+    class File:
+        def __init__(self, filename, mode="r"):
+            self.filename, self.mode = filename, mode
+            if "w" in mode:
+                FakeH5.stores[filename] = (dict(), dict())
+            if filename not in FakeH5.stores:
+                raise FileNotFoundError(filename)
+            self._a, self._d = FakeH5.stores[filename]
+            self.attrs = FakeH5._Attrs(self._a)
+
+        def __enter__(self):
+            return self
+
+        def __exit__(self, *a):
+            return False
+
+        def create_dataset(self, key, data=None, **kw):
+            if "w" not in self.mode and "a" not in self.mode:
+                raise OSError("read-only")
+            self._d[key] = np.array(data, copy=True)
+
+        def items(self):
+            return [(k, self._d[k]) for k in sorted(self._d)]
+
+        def keys(self):
+            return sorted(self._d)
+
+        def __getitem__(self, k):
+            return self._d[k]
+
+        def __contains__(self, k):
+            return k in self._d
+
+        def __iter__(self):
+            return iter(sorted(self._d))
+
+
+def h5_work(P, item):
+    _, nchans, typed = item
+    import attrs
+    from astropy.coordinates import Angle, SkyCoord
+    from sigpyproc.core import rfi
+    from sigpyproc.header import Header
+    hdr = Header(filename="/data/obs_0001.fil", data_type="filterbank", nchans=nchans, foff=-0.390625, fch1=1510.0, nbits=8, tsamp=6.4e-5,
+                 tstart=58000.25, nsamples=4096, nifs=1, coord=SkyCoord(83.63, 22.01, unit="deg"), azimuth=Angle("12.5d"), zenith=Angle("33.25d"),
+                 telescope="Parkes", backend="BPSR", source="J0534+2200", frame="barycentric", ibeam=3, nbeams=13, dm=56.77, period=0.0334, accel=1.5,
+                 signed=True, rawdatafile="raw_0001.dat")
+    FLOATS = ("chan_mean", "chan_var", "chan_skew", "chan_kurt", "chan_maxima", "chan_minima")
+    MASKS = ("chan_mask", "user_mask", "stats_mask", "custom_mask")
+
+    def run(ctx):
+        FakeH5.stores = {}
+        if typed:
+            # numpy-typed payload (float32 statistics, bool masks, float threshold): dtype-dependent code paths
+            thr = 3.25
+            arrs = {f: (np.arange(nchans, dtype=np.float32) * (k + 1) - 1.5) for k, f in enumerate(FLOATS)}
+            arrs.update({f: (np.arange(nchans) % (k + 2) == 0) for k, f in enumerate(MASKS)})
+        else:
+            thr = SReal(z3.Real("thr"))
+            arrs = {f: np.array([SReal(z3.Real(f"{f}{c}")) for c in range(nchans)], dtype=object) for f in FLOATS}
+            arrs.update({f: bvec(f, nchans) for f in MASKS})
+        m = rfi.RFIMask(thr, hdr, *(arrs[f] for f in FLOATS), **{f: arrs[f] for f in MASKS})
+        orig = {f: a.copy() for f, a in arrs.items()}
+        name1 = rebind(rfi.RFIMask.to_file, h5py=FakeH5)(m, "/out/m.h5")
+        name2 = rebind(rfi.RFIMask.to_file, h5py=FakeH5)(m)
+        back = rebind(rfi.RFIMask.from_file.__func__, h5py=FakeH5)(rfi.RFIMask, "/out/m.h5")
+        return dict(thr=thr, orig=orig, back=back, names=(name1, name2), stored=sorted(FakeH5.stores))
+
+    def on_path(ctx, o):
+        Ctx.cur = ctx
+        P.reached += 1
+        back = o["back"]
+        viol = []
+        viol.append(("to_file returns the name it wrote (default <basename>_mask.h5)", z3.BoolVal(not (o["names"] == ("/out/m.h5", "obs_0001_mask.h5") and o["stored"] == ["/out/m.h5", "obs_0001_mask.h5"]))))
+        viol.append(("threshold", wrap(back.threshold).e != wrap(o["thr"]).e))
+        for f in FLOATS + MASKS:
+            got = np.asarray(getattr(back, f), dtype=object)
+            if got.shape != (nchans,):
+                viol.append((f"{f} shape", z3.BoolVal(True)))
+            else:
+                viol.append((f, z3.Or([wrap(a).e != wrap(b).e for a, b in zip(got, o["orig"][f])] + [z3.BoolVal(typed and getattr(back, f).dtype != o["orig"][f].dtype)])))
+        hdiff = []
+        for fld in attrs.fields(Header):
+            if fld.name == "stream_info":
+                continue
+            a, b = getattr(hdr, fld.name), getattr(back.header, fld.name)
+            if isinstance(a, SkyCoord):
+                same = isinstance(b, SkyCoord) and abs(a.ra.deg - b.ra.deg) < 1e-9 and abs(a.dec.deg - b.dec.deg) < 1e-9
+            elif isinstance(a, Angle):
+                same = isinstance(b, Angle) and abs(a.deg - b.deg) < 1e-9
+            else:
+                same = bool(a == b)
+            if not same:
+                hdiff.append(fld.name)
+        viol.append(("header fields", z3.BoolVal(bool(hdiff))))
+        for nm, c in viol:
+            if ctx.check(c) == z3.unsat:
+                P.obligation(f"mask-file round trip[nchans={nchans},{'numpy-typed' if typed else 'symbolic'} payload]/{nm}", "holds", symbolic=not typed)
+                continue
+            params = dict(kind="h5", nchans=nchans, what=nm, header_fields=hdiff)
+            src = ("import sys, json\nfrom symx.concrete import c16\n"
+                   f"sys.exit(c16.main(json.loads({json.dumps(json.dumps(params))})))\n")
+            P.violation(f"maskfile-{nm}".replace(" ", "_").replace("(", "").replace(")", "").replace("<", "").replace(">", "").replace(".", ""), f"mask-file round trip: {nm} {hdiff}", src, model=params)
+        Ctx.cur = None
+    try:
+        explore(run, bound=3, on_path=on_path, stats=P.stats, deadline_s=300)
+    except Inconclusive as ex:
+        P.inconclusive_(f"{item}: {ex}")
+
+
 def work(P, item):
     if item[0] == "mask":
         return mask_work(P, item)
     if item[0] == "orch":
         return orchestration_work(P, item)
+    if item[0] == "outlier":
+        return outlier_work(P, item)
+    if item[0] == "dispatch":
+        return dispatch_work(P, item)
+    if item[0] == "h5":
+        return h5_work(P, item)
     return c07.work(P, item)
 
 
@@ -244,11 +544,17 @@ def run(R):
     R.encode(rfi.RFIMask.apply_mask, rfi.RFIMask.apply_method, rfi.RFIMask.apply_funcn, base.Filterbank.clean_rfi, base.Filterbank.apply_channel_mask)
     R.bounds.update(dict(masks="3 channels (quick) / 4 (thorough); 0..2 frequency ranges; channel frequencies, range edges symbolic reals; previous, per-statistic and custom masks arbitrary symbolic booleans",
                          file="apply_channel_mask harness of C07 (unbounded N, gulp, start, nsamps, arbitrary mask and mask value, depths 2/8/32 bits)"))
-    R.assume("double_mad_mask / iqrm_mask return some boolean vector per statistic (their outlier definitions are NOT decided here)",
-             "the custom function returns some boolean vector")
-    R.out_of_claim("NOT DECIDED: the outlier definitions of double_mad_mask/iqrm_mask (robust estimators, see C15); RFIMask.to_file/from_file (HDF5, h5py is FFI); "
+    R.encode(rfi.double_mad_mask, rfi.iqrm_mask, rfi.RFIMask.to_file, rfi.RFIMask.from_file.__func__)
+    R.bounds.update(dict(outliers="double_mad_mask: 3 (quick) / 5 channels; iqrm_mask: (channels, radius) in (3,1), (4,2), (2,3) and, thorough, (6,2), (7,5), (5,3); symbolic statistic values and threshold",
+                         mask_file="2 (quick) / 4 channels; symbolic threshold, statistics and masks; one concrete fully populated Header"))
+    R.assume("in the combination harness the per-statistic masks are arbitrary boolean vectors; in the outlier harness the z-scores returned by estimate_zscore are arbitrary reals (their definition is C15)",
+             "the custom function returns some boolean vector",
+             "HDF5 store contract (h5py is FFI): attributes and datasets read back what was stored, python scalars as numpy scalars, iteration in name order")
+    R.out_of_claim("h5py itself (replaced by the store contract; the replay drivers use the real h5py)", "Header.stream_info is not stored in a mask file and not claimed",
                    "the default mask value (median of the unmasked channel means)")
-    items = [("mask", 3 if quick else 4, r) for r in (0, 1, 2)] + [("orch",)]
+    items = [("mask", 3 if quick else 4, r) for r in (0, 1, 2)] + [("orch",), ("dispatch",), ("h5", 2 if quick else 4, False), ("h5", 3 if quick else 5, True)]
+    items += [("outlier", "mad", 3 if quick else 5, 0)]
+    items += [("outlier", "iqrm", n, r) for n, r in (((3, 1), (4, 2), (2, 3)) if quick else ((3, 1), (4, 2), (2, 3), (6, 2), (7, 5), (5, 3)))]
     items += [it for it in c07.items_for(R.tier, "viol") if it[0] == "apply_channel_mask"]
     parts = R.pmap(work, items)
     R.vacuity_witness("c16", sum(p.reached for p in parts) > 0)
